@@ -32,4 +32,27 @@ def readAll : Nat → Bytes → List Bytes × Bytes
     | .needMore => ([], s)
     | .msg m rest => let (ms, r) := readAll fuel rest; (m :: ms, r)
 
+/-! ### reading the body in chunks (conn_reader.go read, repaired tree) -/
+
+/-- after the length prefix: `rem` bytes are taken in chunks of at most `c` bytes; a chunk is
+allocated (`buf.Grow`) only once the previous chunks were received completely. `none` = ReadFull
+blocks or fails: no message. -/
+def readChunks (c : Nat) : Nat → Nat → Bytes → Option (Bytes × Bytes)
+  | _, 0, s => some ([], s)
+  | 0, _ + 1, _ => none
+  | fuel + 1, rem + 1, s =>
+    let n := min (rem + 1) c
+    if s.length < n then none else
+      match readChunks c fuel (rem + 1 - n) (s.drop n) with
+      | some (m, rest) => some (s.take n ++ m, rest)
+      | none => none
+
+/-- bytes allocated by `read` for a frame announcing `rem` bytes when only `avail` bytes ever arrive -/
+def allocated (c : Nat) : Nat → Nat → Nat → Nat
+  | _, 0, _ => 0
+  | 0, _ + 1, _ => 0
+  | fuel + 1, rem + 1, avail =>
+    let n := min (rem + 1) c
+    if avail < n then n else n + allocated c fuel (rem + 1 - n) (avail - n)
+
 end SpecVerif.Mpx.Frame
